@@ -1,0 +1,53 @@
+// Copyright 2020-2025 Buf Technologies, Inc.
+//
+// Licensed under the Apache License, Version 2.0 (the "License");
+// you may not use this file except in compliance with the License.
+// You may obtain a copy of the License at
+//
+//      http://www.apache.org/licenses/LICENSE-2.0
+//
+// Unless required by applicable law or agreed to in writing, software
+// distributed under the License is distributed on an "AS IS" BASIS,
+// WITHOUT WARRANTIES OR CONDITIONS OF ANY KIND, either express or implied.
+// See the License for the specific language governing permissions and
+// limitations under the License.
+
+//go:build verif
+
+
+package storagemem
+
+// Contracts for the gocv verifier (see /verif/DESIGN.md). Comment-only. Author ca-D2: the functions of storagemem that
+// had no contract yet.
+//
+// A memory bucket accepts external/local paths, and is its own read view.
+//@ func (b *bucket) SetExternalAndLocalPathsSupported() (r)
+//@   property C13 C14
+//@   ensures r
+//@ func (b *bucket) ToReadBucket() (r, err)
+//@   property C13 C14
+//@   ensures same-bucket: err == nil && r == b
+//
+// The read closer: a closed reader refuses to read; Close succeeds exactly once.
+//@ func (r *readObjectCloser) Read(p) (n, err)
+//@   property C14
+//@   ensures closed-refused: r.closed ==> n == 0 && err != nil
+//@   ensures state-kept: r.closed == old(r.closed)
+//@ func (r *readObjectCloser) Close() (err)
+//@   property C14
+//@   modifies heap readObjectCloser.closed
+//@   ensures once: (err == nil) <==> !old(r.closed)
+//@   ensures closed: r.closed
+//
+// CopyReadBucket: a memory bucket is returned as it is (nothing is read or written); any other bucket is copied into a
+// NEW memory bucket (with external and local paths); a failed copy is reported and yields no bucket.
+//@ func CopyReadBucket(ctx, inputBucket) (r, err)
+//@   property C14 C15
+//@   modifies heap, ghost.fail, ghost.wfail, ghost.sinkPaths, ghost.sinkBuckets, ghost.lastPutOptions
+//@   ensures memory-bucket-kept: inputBucket != nil && typeOf(inputBucket) == typeId(*bucket) ==> r == inputBucket && err == nil && ghost.sinkPaths == old(ghost.sinkPaths) && ghost.sinkBuckets == old(ghost.sinkBuckets)
+//@   ensures copied: err == nil && !(inputBucket != nil && typeOf(inputBucket) == typeId(*bucket)) ==> r != nil && typeOf(r) == typeId(*bucket) && r != inputBucket && !old(allocated(r))
+//@   ensures failure-yields-nothing: err != nil ==> r == nil
+//@   ensures reported {C15}: ghost.fail && !old(ghost.fail) ==> err != nil
+//@   ensures write-reported {C15}: ghost.wfail && !old(ghost.wfail) ==> err != nil
+//@   canary ensures err != nil
+//@   canary ensures err == nil
